@@ -5,4 +5,5 @@ pub mod alloc;
 pub mod circ;
 pub mod engine;
 pub mod exec;
+pub mod filebuf;
 pub mod server;
